@@ -80,40 +80,67 @@ Proof.
 Qed.
 
 (* ---- names: rotate() always finds a name that does not exist ---- *)
-Lemma taken_In s k d : taken s k d = true <-> In (s, k) (map fst d).
+Lemma ks_of_In s k d : In k (ks_of s d) <-> In (s, k) (map fst d).
 Proof.
-  unfold taken. rewrite existsb_exists, in_map_iff. split.
-  - intros (e & He & H). apply andb_true_iff in H as [H1 H2].
-    apply N.eqb_eq in H1, H2. exists e. split; [|exact He]. destruct e as [[a b] c]; cbn in *. congruence.
-  - intros (e & He & Hi). exists e. split; [exact Hi|]. destruct e as [[a b] c]. cbn in *.
-    inversion He; subst. rewrite !N.eqb_refl. reflexivity.
+  unfold ks_of. rewrite in_flat_map, in_map_iff. split.
+  - intros (e & He & H). destruct (fst (fst e) =? s)%N eqn:E; [|destruct H].
+    destruct H as [H|[]]. apply N.eqb_eq in E. exists e. split; [|exact He].
+    destruct e as [[a b] c]; cbn in *. congruence.
+  - intros (e & He & Hi). exists e. split; [exact Hi|]. destruct e as [[a b] c]; cbn in *.
+    inversion He; subst. rewrite N.eqb_refl. left. reflexivity.
 Qed.
 
-Lemma first_free_spec s d : forall fuel k,
-  taken s (first_free fuel s k d) d = false \/
-  (forall i, (i < fuel)%nat -> taken s (k + N.of_nat i)%N d = true).
+Lemma remove_one_none k l : remove_one k l = None -> ~ In k l.
 Proof.
-  induction fuel as [|f IH]; intros k; cbn [first_free]; [right; intros i Hi; lia|].
-  destruct (taken s k d) eqn:E; [|left; exact E].
-  destruct (IH (k + 1)%N) as [H|H]; [left; exact H|right].
-  intros i Hi. destruct i as [|i]; [replace (k + N.of_nat 0)%N with k by lia; exact E|].
-  replace (k + N.of_nat (S i))%N with (k + 1 + N.of_nat i)%N by lia. apply H. lia.
+  induction l as [|x r IH]; cbn [remove_one]; [intros _ []|].
+  destruct (x =? k)%N eqn:E; [discriminate|]. destruct (remove_one k r); [discriminate|].
+  intros _ [H|H]; [subst; rewrite N.eqb_refl in E; discriminate|exact (IH eq_refl H)].
+Qed.
+
+Lemma remove_one_some k l : forall l', remove_one k l = Some l' ->
+  In k l /\ length l = S (length l') /\ (forall x, In x l -> x = k \/ In x l') /\ (forall x, In x l' -> In x l).
+Proof.
+  induction l as [|x r IH]; cbn [remove_one]; intros l' H; [discriminate|].
+  destruct (x =? k)%N eqn:E.
+  - inversion H; subst. apply N.eqb_eq in E; subst. cbn. repeat split; auto. intros y [->|Hy]; auto.
+  - destruct (remove_one k r) as [r'|] eqn:Er; [|discriminate]. inversion H; subst.
+    destruct (IH r' eq_refl) as (I1 & I2 & I3 & I4). cbn [length In]. repeat split; auto.
+    + intros y [->|Hy]; [right; left; reflexivity|]. destruct (I3 y Hy); auto.
+    + intros y [->|Hy]; auto.
+Qed.
+
+(* invariant of the search: [cur] is [orig] with 0 .. k-1 struck off *)
+Lemma mex_spec orig : forall fuel k cur,
+  length cur = fuel ->
+  (forall x, In x orig -> In x cur \/ (x < k)%N) -> (forall x, In x cur -> In x orig) ->
+  (forall j, (j < k)%N -> In j orig) ->
+  ~ In (mex fuel k cur) orig /\ (forall j, (j < mex fuel k cur)%N -> In j orig).
+Proof.
+  induction fuel as [|f IH]; intros k cur Hl H1 H2 H3; cbn [mex].
+  - destruct cur; [|discriminate]. split; [|exact H3].
+    intros Hi. destruct (H1 k Hi) as [[]|Hk]. lia.
+  - destruct (remove_one k cur) as [cur'|] eqn:Er.
+    + destruct (remove_one_some k cur cur' Er) as (I1 & I2 & I3 & I4).
+      apply IH.
+      * lia.
+      * intros x Hx. destruct (H1 x Hx) as [Hc|Hk]; [|right; lia].
+        destruct (I3 x Hc) as [->|Hc']; [right; lia|left; exact Hc'].
+      * intros x Hx. apply H2, I4, Hx.
+      * intros j Hj. destruct (N.eq_dec j k) as [->|Hne]; [apply H2, I1|apply H3; lia].
+    + apply remove_one_none in Er. split; [|exact H3].
+      intros Hi. destruct (H1 k Hi) as [Hc|Hk]; [exact (Er Hc)|lia].
+Qed.
+
+Lemma free_k_spec s d :
+  ~ In (s, free_k s d) (map fst d) /\ (forall j, (j < free_k s d)%N -> In (s, j) (map fst d)).
+Proof.
+  unfold free_k. destruct (mex_spec (ks_of s d) (length (ks_of s d)) 0%N (ks_of s d) eq_refl) as [A B];
+    [auto|auto|intros j Hj; lia|].
+  split; [rewrite <- ks_of_In; exact A|intros j Hj; apply ks_of_In, B, Hj].
 Qed.
 
 Lemma free_k_fresh s d : ~ In (s, free_k s d) (map fst d).
-Proof.
-  unfold free_k. destruct (first_free_spec s d (S (length d)) 0%N) as [H|H].
-  - intros Hi. apply taken_In in Hi. congruence.
-  - exfalso.
-    set (l := map (fun i => (s, N.of_nat i)) (seq 0 (S (length d)))).
-    assert (Hnd : NoDup l).
-    { apply Injective_map_NoDup; [|apply seq_NoDup]. intros a b E. inversion E. lia. }
-    assert (Hincl : incl l (map fst d)).
-    { intros x Hx. unfold l in Hx. apply in_map_iff in Hx as (i & <- & Hi). apply in_seq in Hi.
-      apply taken_In. specialize (H i ltac:(lia)). replace (0 + N.of_nat i)%N with (N.of_nat i) in H by lia. exact H. }
-    pose proof (NoDup_incl_length Hnd Hincl) as Hlen.
-    unfold l in Hlen. rewrite !map_length, seq_length in Hlen. lia.
-Qed.
+Proof. apply free_k_spec. Qed.
 
 (* ---- invariants ---- *)
 (* between calls: pos is the length of the file whenever it exists *)
